@@ -533,7 +533,7 @@ package leveldb
 //@ ghost var gSnapV ref
 //@ ghost var gSnapped bool
 //@ func (*session).commit
-//@   props C04 C08 C06 C01
+//@   props C04 C08 C06 C01 C07
 //@   mode bv
 //@   at entry
 //@     ghost gSnapped = false
@@ -542,8 +542,13 @@ package leveldb
 //@     ghost gSnapped = true
 //@   at before call (*session).setVersion#1
 //@     assert [C04,C08:install-only-on-success] err == nil
-//@     assert [C01,C04,C06:a-rewritten-manifest-snapshots-the-version-being-installed] gSnapped ==> arg1 == gSnapV
-//@     assert [C01,C04,C06:the-version-installed-is-the-one-spawned-from-this-record] arg0 == r && arg1 == nv
+//@     assert [C01,C04,C06,C08:a-rewritten-manifest-snapshots-the-version-being-installed] gSnapped ==> arg1 == gSnapV
+//@     assert [C01,C04,C06,C08:the-version-installed-is-the-one-spawned-from-this-record] arg0 == r && arg1 == nv
+// (C07: when the manifest is rotated, the record rewritten into a full snapshot is a scratch record, not the caller's:
+// the caller's record becomes the delta for the file reference counts, and as a snapshot it would count every live
+// table once more - none of them would ever be removed again)
+//@   at before call (*session).newManifest#2
+//@     assert [C07:a-rotation-rewrites-a-scratch-record-not-the-callers] arg0 != r && arg0 != nil
 //@   ensures [C08:failed-commit-keeps-version] err != nil ==> s.stVersion == old(s.stVersion)
 
 // O6: a memdb flush commits (journal number of the live journal, sequence number at freeze time) before the
@@ -571,6 +576,14 @@ package leveldb
 //@   ensures [C04:flushed] result == nil ==> calls("(*Writer).Flush") > old(calls("(*Writer).Flush"))
 //@   ensures [C04:synced-when-asked] (result == nil && sync) ==> calls("storage.Syncer.Sync") > old(calls("storage.Syncer.Sync"))
 //@   ensures [C01,C04,C08:a-failed-journal-flush-or-sync-is-reported] gJournalFailed ==> result != nil
+
+// ... and the sequence numbers of a write group are published before its write buffer is rotated: the rotation
+// records the sequence number reached as the frozen buffer's, and that number goes into the flush's manifest record -
+// a record short by this group's length makes recovery skip (or later writes reuse) the group's numbers.
+//@ func (*DB).writeLocked
+//@   props C04 C01
+//@   at before call (*DB).rotateMem#1
+//@     assert [C01,C04:sequence-numbers-published-before-the-buffer-is-rotated] calls("(*DB).addSeq") == old(calls("(*DB).addSeq")) + 1
 
 //@ func (*DB).writeLocked
 //@   props C04
